@@ -16,7 +16,7 @@ RULE = (
     "and every pixels_from_end; enum_constructors: every integer 4-tuple in [-2,4]^4 / [-3,6]^4 and 2-tuple in "
     "[-3,7]^2 / [-4,10]^2; enum_large: per axis every boundary relation between region and window (abutting on "
     "either side, gap of one pixel, overlap of exactly one pixel, equal, equal low/high edge nested or containing, "
-    "nested, containing, clipped by one) at region starts 0..70000, 2**31-1..2**31+300 (thorough: ..2**63+5), region "
+    "nested, containing, clipped by one) at region starts 0..70000, 2**31-1..2**31+300 (thorough: ..2**40+1), region "
     "lengths 1..40000 (thorough ..2**31), margins 1/2/257/300/40000, crossed with representative relations on the "
     "other axis, frame padding 0/1/257, corners cycling, plus a 2086x2128 CCD quadrant (every named region x every "
     "named region as window x corner); given_*: Hypothesis shapes up to 40x40 (three layout slots, random windows, "
@@ -597,7 +597,7 @@ def check_extract_one(idx, r, win, ctx, got, key_prefix, what):
     ya = axis_class(r[0], r[1], win[0], win[1])
     xa = axis_class(r[2], r[3], win[2], win[3])
     cls = "y-%s/x-%s" % (ya, xa)
-    empty = (len(rows) == 0) or (len(cols) == 0)
+    empty = (not rows) or (not cols)
     if got is None:
         ctx.check(empty, key_prefix + "/spurious-none",
                   "%s: region %s window %s overlap rows %s cols %s but got None [%s]" % (what, r, win, rows, cols, cls))
@@ -689,7 +689,7 @@ def check_extract_layout(idx, regions, win, ctx, corner=None, shape=None, win2=N
 def extract_nt(r, win, h, w):
     sides = 0
     rows, cols = overlap_ranges(r, win)
-    if len(rows) and len(cols):
+    if rows and cols:
         sides = int(win[0] > r[0]) + int(win[1] < r[1]) + int(win[2] > r[2]) + int(win[3] < r[3])
     return sides == 1 or touches_edge(r, h, w), sides
 
@@ -1101,7 +1101,7 @@ def window_for(draw, h, w, r):
 # ---------------------------------------------------------------------------------------------
 BASES_QUICK = [0, 1, 255, 256, 257, 300, 2066, 32767, 32768, 40000, 65536, 70000, 2 ** 31 - 1, 2 ** 31, 2 ** 31 + 300]
 BASES_THOROUGH = BASES_QUICK + [2, 200, 254, 258, 511, 512, 513, 1000, 2048, 4096, 32769, 65535, 65537, 69999,
-                                2 ** 31 - 257, 2 ** 31 + 1, 2 ** 32, 2 ** 32 + 257, 2 ** 63 - 1, 2 ** 63 + 5]
+                                2 ** 31 - 257, 2 ** 31 + 1, 2 ** 32, 2 ** 32 + 257, 2 ** 40 + 1]
 LENGTHS_QUICK = [1, 2, 20, 300, 40000]
 LENGTHS_THOROUGH = LENGTHS_QUICK + [3, 256, 257, 2 ** 15, 2 ** 31]
 MARGINS = [1, 2, 257, 300, 40000]
@@ -1222,7 +1222,7 @@ def check_chain_ranges(shape, regions, win, corner, ctx):
             ctx.check(got is None, "chain/none-slot", "%s was None, became %s" % (s, got))
             continue
         rows, cols = overlap_ranges(r, win)
-        if len(rows) == 0 or len(cols) == 0:
+        if (not rows) or (not cols):
             ctx.check(got is None, "chain/missing-none", lambda: "slot %s region %s window %s corner %s -> %s, want None"
                       % (s, r, win, c, rcoords(got)))
             continue
